@@ -50,6 +50,7 @@ type Task struct {
 	prio     int // PCT priority
 	panicVal any
 	Daemon   bool // harness helper; not counted as a leak
+	ExitAt   time.Duration
 }
 
 func (t *Task) Site() int     { return t.site }
@@ -235,6 +236,7 @@ type TaskInfo struct {
 	State  string
 	Site   string
 	GoSite string
+	Daemon bool
 }
 
 // Run executes main as task 0 inside the current synctest bubble and
@@ -291,7 +293,7 @@ func Run(cfg Config, rng *Rand, main func()) (res Result) {
 	res.TraceHash = s.traceHash
 	for _, t := range s.tasks {
 		if t.state != tsDone {
-			res.Leaked = append(res.Leaked, TaskInfo{t.ID, t.Name, stateName[t.state], SiteName(t.site), SiteName(t.GoSite)})
+			res.Leaked = append(res.Leaked, TaskInfo{t.ID, t.Name, stateName[t.state], SiteName(t.site), SiteName(t.GoSite), t.Daemon})
 		}
 	}
 	return res
@@ -329,6 +331,9 @@ func (t *Task) exit() {
 		}
 	}
 	t.state = tsDone
+	if S != nil {
+		t.ExitAt = time.Since(S.start)
+	}
 }
 
 // waitWake blocks on the task's cond until the scheduler selects it.
@@ -687,4 +692,24 @@ func WaitUntil(d time.Duration) {
 	if rem > 0 {
 		Sleep(0, rem)
 	}
+}
+
+// CurTaskID returns the id of the running task, -1 if none.
+//
+//go:norace
+func CurTaskID() int {
+	if t := cur(); t != nil {
+		return t.ID
+	}
+	return -1
+}
+
+// TaskParent returns the parent task id of task id (-1 for main).
+//
+//go:norace
+func TaskParent(id int) int {
+	if S == nil || id < 0 || id >= len(S.tasks) {
+		return -1
+	}
+	return S.tasks[id].Parent
 }
